@@ -100,6 +100,7 @@ def handler(case):
     def state():
         return ({l.name: l.connected for l in ps.lines}, {s.name: s.is_open for s in ps.disconnectors + ps.circuitbreakers})
     s0 = state()
+    automatic = type(ps.controller).__name__ == "MainController"
     for n in ps.child_network_list:
         for s in getattr(n, "sections", None) or []:
             s.disconnect()
@@ -111,7 +112,14 @@ def handler(case):
             for sw in s.switches:
                 if sw in ps.circuitbreakers and sw.is_open:
                     sw.close()
-            s.connect_manually()
+            ctrl = getattr(n, "controller", None)
+            if automatic and ctrl is not None:
+                # the way the ICT-based controllers put a section back (intelligent switches with / without ICT node,
+                # reachable or not, plain disconnectors)
+                from relsad.Time import Time as _T
+                s.connect(_T(1), ctrl)
+            else:
+                s.connect_manually()
             s1 = state()
             if s1 != s0:
                 diff = [k for k in s0[0] if s0[0][k] != s1[0][k]] + [k for k in s0[1] if s0[1][k] != s1[1][k]]
@@ -146,6 +154,14 @@ def gen(rng, n, exhaustive_upto):
         spec = net.rand_feeder_spec(rng, max_lines=rng.choice([4, 7, 12, 25]), allow_mg=True, allow_tie=True)
         if spec.get("mg"):
             spec["mg"]["n"] = rng.choice([1, 2, 3, 4]); spec["mg"]["discon"] = rng.random() < 0.6
+        if rng.random() < 0.35 and sum(len(fd["parent"]) for fd in spec["feeders"]) <= 12:
+            # ICT-based control: sections are put back through Section.connect; some devices missing / without ICT node
+            from . import c06
+            spec["ctrl"] = {"type": "main", "T": spec["ctrl"]["T"]}
+            if rng.random() < 0.5:
+                spec["ctrl"]["nodev"] = c06.missing_devices(rng, spec)
+            if rng.random() < 0.8:
+                spec["ctrl"]["ict"] = c06.fallible_ict(rng, spec)
         cases.append({"spec": spec})
     return cases
 
@@ -154,7 +170,7 @@ def run(res):
     rng = random.Random(res.seed * 6007 + 47)
     n, ex = (150, 3) if res.tier == "quick" else (3000, 5)
     res.rule = (f"exhaustive: all rooted trees with <= {ex} lines x all placements of 0/1(up)/1(down)/2 disconnectors per line; "
-                "random: 1-2 feeders up to 25 lines with laterals, backup ties, microgrids of 1-4 lines nested at a random bus; "
+                "random: 1-2 feeders up to 25 lines with laterals, backup ties, microgrids of 1-4 lines nested at a random bus, 35% under ICT-based control (sections put back through Section.connect; missing devices, devices without ICT node); "
                 "non-trivial = distinct (lines, sections, max switches on a line) per network")
     res.exhaustive = True
     run_cases(res, gen(rng, n, ex), handler, compare)
